@@ -1,9 +1,11 @@
 package main
 
 import (
+	"encoding/hex"
 	"encoding/json"
 	"fmt"
 	"reflect"
+	"sort"
 	"strings"
 
 	"github.com/elementsproject/peerswap/messages"
@@ -98,14 +100,32 @@ func init() {
 					nonCancel++
 				}
 			}
-			return dumpBucket(w.db, "swaps") + fmt.Sprint(nonCancel) + fmt.Sprint(w.svc.VerifActiveSwaps()[c.id])
+			// the WHOLE active map: an entry without a swap behind it takes a channel away from everybody
+			var act []string
+			for id, v := range w.svc.VerifActiveSwaps() {
+				act = append(act, id+"/"+v[1])
+			}
+			sort.Strings(act)
+			return dumpBucket(w.db, "swaps") + fmt.Sprint(nonCancel) + fmt.Sprint(w.svc.VerifActiveSwaps()[c.id]) + strings.Join(act, ",")
+		}
+		// requests that are well-formed in every field but the swap id
+		pub := hex.EncodeToString(c.peerKey.PubKey().SerializeCompressed())
+		noIdRequests := []string{
+			`{"protocol_version":7,"network":"regtest","scid":"555x1x0","amount":1000000,"pubkey":"` + pub + `","premium_limit":1000000}`,
+			`{"protocol_version":7,"swap_id":null,"network":"regtest","scid":"556x1x0","amount":1000000,"pubkey":"` + pub + `","premium_limit":1000000}`,
+			`{"protocol_version":7,"swap_id":"","network":"regtest","scid":"557x1x0","amount":1000000,"pubkey":"` + pub + `","premium_limit":1000000}`,
+			`{"protocol_version":7,"swap_id":"00","network":"regtest","scid":"558x1x0","amount":1000000,"pubkey":"` + pub + `","premium_limit":1000000}`,
 		}
 		types := []string{"a455", "a457", "a459", "a45b", "a45d", "a45f", "a461"}
 		for i := 0; i < n/2; i++ {
 			res.Evaluations++
 			before := snapshot()
 			var ts, payload, class string
-			switch r.intn(4) {
+			switch r.intn(5) {
+			case 4: // a request without a usable swap id
+				ts = r.pickStr([]string{"a455", "a457"})
+				payload = r.pickStr(noIdRequests)
+				class = "request-without-id"
 			case 0: // foreign or unparsable type, any payload
 				ts = r.pickStr([]string{"a454", "a456", "a460", "a467", "0", "", "-a45f", "xyz", "a463", "a465", "ffffffffffffffffff", "a45g"})
 				payload = strings.ReplaceAll(r.pickStr(junkPayloads), "%ID%", c.id)
